@@ -26,53 +26,57 @@ Proof. exact new_is_literal_assign. Qed.
 Print Assumptions C20_new_is_literal_assign.
 
 (* Memory safety of ffi.new, all nesting depths: for every type whose layout is well formed
-   (wf_type: fields inside their struct, bit-field units inside, flexible arrays flagged) and in
-   which no array has var-sized structs as items, for every initialiser (lists, tuples, dicts,
-   bytes, str, cdata, lengths; valid or not) and any fuel, no byte is written outside the block
-   whose size the sizing pass computed (a write outside it is the model's SegV). *)
+   (wf_type: fields inside their struct, bit-field units inside, flexible arrays flagged), every
+   initialiser (lists, tuples, dicts, bytes, str counted in units of the item type, cdata,
+   lengths; valid or not) and any fuel, no byte is written outside the block whose size the
+   sizing pass computed (a write outside it is the model's SegV). *)
 Theorem C20_sizing_dominates : forall fuel T init,
-  wf_type (new_target T) = true -> no_var_items (new_target T) = true ->
-  new_bytes fuel T init <> Err SegV.
+  wf_type (new_target T) = true -> new_bytes fuel T init <> Err SegV.
 Proof. exact sizing_dominates. Qed.
 Print Assumptions C20_sizing_dominates.
 
 (* the invariant behind it, usable for assignments too: converting any initialiser into a
    fixed-size type at offset off touches only the block and keeps its length, whenever
-   [off, off + sizeof) lies inside the block — a nested initialiser cannot spill over *)
+   [off, off + sizeof) lies inside the block: a nested initialiser cannot spill over *)
 Theorem C20_assign_stays_inside : forall fuel t off init m,
-  wf_type t = true -> no_var_items t = true -> has_var t = false -> 0 <= lsize t ->
+  wf_type t = true -> agg_var t = false -> 0 <= lsize t ->
   0 <= off -> off + lsize t <= mlen m ->
-  fill fuel t off init m <> Err SegV /\ forall m', fill fuel t off init m = Ok m' -> mlen m' = mlen m.
+  fill fuel t off init m <> Err SegV /\
+  forall m', fill fuel t off init m = Ok m' -> mlen m' = mlen m.
 Proof. exact assign_safe. Qed.
 Print Assumptions C20_assign_stays_inside.
 
 (* general form: a block as large as the sizing pass asks for (need) is enough for the filling
    pass, at every offset and nesting depth *)
 Theorem C20_need_is_enough : forall fuel t off v m n,
-  wf_type t = true -> no_var_items t = true -> 0 <= lsize t -> 0 <= off ->
+  wf_type t = true -> 0 <= lsize t -> 0 <= off ->
   need fuel t v = Ok n -> off + n <= mlen m ->
   fill fuel t off v m <> Err SegV /\ forall m', fill fuel t off v m = Ok m' -> mlen m' = mlen m.
 Proof. intros fuel. exact (P_all fuel fuel (le_n _)). Qed.
 Print Assumptions C20_need_is_enough.
 
-(* The sizing pass does NOT dominate the filling pass for every type cffi accepts: an array of
-   var-sized structs is filled item by item, flexible parts included, but sized as len*sizeof.
-   struct V { int n; int a[]; };  ffi.new("struct V[1]", [[1, [1,2,3]]])  writes 16 bytes into 4+... *)
+(* History.  Before /repo commit 812503f the model had no item_guard and this file contained
+     C20_sizing_dominates_refuted : exists T init, wf_type (new_target T) = true /\
+                                    new_bytes FUEL T init = Err SegV
+   with witness  struct V { int n; int a[]; };  ffi.new("struct V[1]", [[1, [1,2,3]]]):
+   an array of var-sized structs was filled item by item, flexible parts included, but sized as
+   len * sizeof.  Replayed on the real code under ASan (heap-buffer-overflow), reported as finding
+   array_of_varsize_struct, repaired by the guard in convert_array_from_object that item_guard
+   models.  The witnesses now raise ValueError: *)
 Definition t_int := LPrim KSigned 4.
 Definition t_V := LAgg 4 true [(t_int, 0, -1, -1, 0); (LArr t_int (-1), 4, -2, -1, 0)].
-Theorem C20_sizing_dominates_refuted :
-  exists T init, wf_type (new_target T) = true /\ new_bytes FUEL T init = Err SegV.
-Proof.
-  exists (NewArr t_V 1), (VList [VList [VInt 1; VList [VInt 1; VInt 2; VInt 3]]]).
-  split; vm_compute; reflexivity.
-Qed.
-Print Assumptions C20_sizing_dominates_refuted.
+Example C20_former_overflow_is_refused :
+  wf_type (LArr t_V 1) = true /\
+  new_bytes FUEL (NewArr t_V 1) (VList [VList [VInt 1; VList [VInt 1; VInt 2; VInt 3]]]) = Err ValueError /\
+  (* initialisers that fit are accepted *)
+  new_bytes FUEL (NewArr t_V 2) (VList [VList [VInt 1]; VList [VInt 2; VInt 0]]) = Ok [1;0;0;0; 2;0;0;0].
+Proof. repeat split; vm_compute; reflexivity. Qed.
 
 (* the same through a struct member:  struct W { struct V arr[2]; } *)
 Definition t_W := LAgg 8 false [(LArr t_V 2, 0, -1, -1, 0)].
-Example C20_refuted_member :
-  no_var_items t_W = false /\ new_bytes FUEL (NewPtr t_W)
-    (VList [VList [VList [VInt 1; VList [VInt 1; VInt 2; VInt 3]]; VList [VInt 2]]]) = Err SegV.
+Example C20_former_overflow_member :
+  wf_type t_W = true /\ no_var_items t_W = false /\ new_bytes FUEL (NewPtr t_W)
+    (VList [VList [VList [VInt 1; VList [VInt 1; VInt 2; VInt 3]]; VList [VInt 2]]]) = Err ValueError.
 Proof. repeat split; vm_compute; reflexivity. Qed.
 
 (* ---- non-vacuity: a var-sized struct nested in a struct, initialised three levels deep
@@ -97,7 +101,7 @@ Proof. repeat split; vm_compute; reflexivity. Qed.
    struct S { int n; char16_t s[]; };  ffi.new("struct S *", [1, "a\U0001F600"])  needs 4 + 2*(1+2+1) bytes *)
 Definition t_S16 := LAgg 4 true [(t_int, 0, -1, -1, 0); (LArr (LPrim KChar 2) (-1), 4, -2, -1, 0)].
 Example C20_example_utf16 :
-  wf_type t_S16 = true /\ no_var_items t_S16 = true /\
+  wf_type t_S16 = true /\
   new_bytes FUEL (NewPtr t_S16) (VList [VInt 1; VStr [97; 128512]])
   = Ok [1;0;0;0; 97;0; 61;216; 0;222; 0;0].
 Proof. repeat split; vm_compute; reflexivity. Qed.
